@@ -1,6 +1,6 @@
 """C16: the real libpowerman.c / powerman.c reply handling (harness/u_libpm.c, read()/write() wrapped) vs the Lean mirror
 Pm.LibPmModel (LpMain driver), plus predicates on the implementation's own results."""
-import collections, os, random, subprocess, re
+import collections, json, os, random, subprocess, re
 from common import *
 
 SRCS = lambda: ['u_libpm.c'] + [S('liblsd/%s.c' % x) for x in ('hostlist', 'list', 'cbuf', 'hash')] + [S('libcommon/%s.c' % x) for x in ('error', 'xmalloc', 'hprintf', 'fdutil', 'argv', 'xpoll', 'xread')]
@@ -253,3 +253,45 @@ class LibPmLayer:
         p = subprocess.run([binary], input='\n'.join(ops) + '\n', capture_output=True, text=True, env=ASAN_ENV)
         print(p.stdout[-2000:]); print(p.stderr[-2000:])
         return 1
+
+
+class GreetingLayer:
+    """C16, oversized server lines at the one place the CLI sizes a buffer from the protocol: the greeting.  A protocol-perfect
+    exchange whose version word is just below, at, just above and three times CP_LINEMAX (read from the tree).  The real CLI runs
+    under ASan; the predicates of `check` apply (exit status = what the terminal code says, not killed).  Not compared with the
+    model: the list-based CLI model needs minutes per 100 KiB line (DESIGN §12), and err() cuts the version warning where the
+    model prints it whole."""
+    name = 'libpm-greeting'
+
+    def build(self): build()
+
+    def run(self, prop, tier, seed):
+        binary = build()
+        linemax = int(re.search(r'#define\s+CP_LINEMAX\s+(\d+)', open(S('powerman/client_proto.h')).read()).group(1))
+        R = random.Random(seed)
+        ops = []
+        for n in [10, linemax - 8, linemax - 1, linemax, linemax + 1, 3 * linemax]:
+            for cut in ([1 << 30, linemax] if tier == 'quick' else [1 << 30, linemax, 65536, 9000]):
+                code = R.choice([102, 102, 210, 204])
+                stream = b'001 ' + bytes(R.choice(b'abcxyz0189.-') for _ in range(n)) + b'\r\n' + PROMPT + ('%d %s' % (code, TEXT[code])).encode() + b'\r\n' + PROMPT + b'101 Goodbye\r\n'
+                ops.append('M -1,t1 ' + ' '.join(hx(stream[i:i + cut]) for i in range(0, len(stream), cut)))
+        p = subprocess.run([binary], input='\n'.join(ops) + '\n', capture_output=True, text=True, env=ASAN_ENV, timeout=900)
+        c_lines = p.stdout.split('\n')[1:-1]
+        V = []; st = collections.Counter()
+        for i, op in enumerate(ops):
+            if i >= len(c_lines):
+                V.append(dict(sig='C16 client code died: ' + death(p.stderr), at=i, detail=p.stderr[-1500:])); break
+            c = c_lines[i]
+            stream, _ = stream_of(op)
+            st['version word of %d bytes' % (stream.index(b'\r\n') - 4)] += 1
+            check(op, c, V, st, i)
+            if 'signal=' in c.split(' out=')[0]: st['CLI runs killed by a signal'] += 1
+        for v in V: v['replay'] = dict(layer=self.name, seed=seed, tier=tier, at=v.get('at'))
+        return dict(name=self.name, evaluations=min(len(c_lines), len(ops)), distinct=len(ops), samples=[dict(version_bytes=linemax, answer=c_lines[-1][:120] if c_lines else '')],
+                    stats=dict(st), diffs=[], violations=V,
+                    rule='one evaluation = one run of the real CLI main() (forked child, ASan) against a conforming exchange whose greeting carries a version word of 10, CP_LINEMAX-8, -1, +0, +1 and 3*CP_LINEMAX bytes, whole and cut at the buffer step; predicates on the implementation only (not compared with the model)')
+
+    def replay(self, rp, v):
+        r = self.run('C16', rp.get('tier', 'quick'), rp.get('seed', 1))
+        for x in r['violations']: print(json.dumps({k: str(y)[:400] for k, y in x.items()}))
+        return 1 if r['violations'] else 0
